@@ -432,6 +432,33 @@ The file-level statements `parse3 (render3 F) = rows F` and `parse2 (render2 F) 
 well-formed file model `F` — are *not* proved; they need the induction over epochs and satellites through
 `readData` and are what the correspondence measures on every generated file. -/
 
+/-- RINEX 2, seven types (two lines per satellite), the second line of the first satellite all blank:
+two rows, `S1` of G07 absent, values of R21 in their own columns -/
+def tiny2 : List Str := [
+  "     2.11           OBSERVATION DATA    M (MIXED)           RINEX VERSION / TYPE",
+  "TRDS                                                        MARKER NAME",
+  "     7    C1    P2    L1    L2    D1    S1    S2            # / TYPES OF OBSERV",
+  "  2018     2     1     0     0    0.0000000     GPS         TIME OF FIRST OBS",
+  "                                                            END OF HEADER",
+  " 18  2  1  0  0 30.0000000  0  2G07R21",
+  "  24236245.742    24236247.152   127362289.44018  99243378.71651      2293.062",
+  "",
+  "  21119353.719                  110982860.19619                      -1784.992",
+  "        49.300          38.000"].map String.toList
+
+def tiny2Out : Option (List Str × List Str × Option Col × Option Col × Option Col) :=
+  match Midgard.Rinex2Obs.parseLines none tiny2 with
+  | .ok s => some (s.data.time, s.data.satellite, (s.data.obs.find? (·.1 == "S1".toList)).map (·.2),
+      (s.data.obs.find? (·.1 == "P2".toList)).map (·.2), (s.data.lli.find? (·.1 == "L1".toList)).map (·.2))
+  | _ => none
+
+example : tiny2Out.map (·.1) = some ["2018-02-01T00:00:30.0000000".toList, "2018-02-01T00:00:30.0000000".toList] ∧
+    tiny2Out.map (·.2.1) = some ["G07".toList, "R21".toList] ∧
+    tiny2Out.map (·.2.2.1) = some (some [none, some (493 / 10)]) ∧
+    tiny2Out.map (·.2.2.2.1) = some (some [some (24236247152 / 1000), none]) ∧
+    tiny2Out.map (·.2.2.2.2) = some (some [some 1, some 1]) := by
+  decide +kernel
+
 /-- RINEX 3, two systems with different type lists, a decimated epoch in between (sampling rate 30 s) -/
 def tiny3 : List Str := [
   "     3.03           OBSERVATION DATA    M                   RINEX VERSION / TYPE",
